@@ -7,7 +7,7 @@ HEADER = """C06 - memory safety and leak freedom on every contract-respecting hi
     constructor - no operation faults, and destroy returns the ledger to its state before the constructor (each
     block released exactly once; a second release would be a fault). What ties this to the compiled code is the
     correspondence run under AddressSanitizer/UBSan, where a model [Fault] must coincide with a sanitizer abort."""
-IMPORTS = """From Coq Require Import Permutation Sorted.\nFrom CC Require Import Base.Prelude Base.Alloc Base.Ledger Generated.Status Generated.Constants Generated.Guards.\nFrom CC Require Import Rbuf.RbufModel SPool.SPoolModel DPool.DPoolModel Array.ArrayModel Deque.DequeModel PQueue.PQueueModel Hash.HashModel Tst.TstModel Tree.TreeModel.\n@MODULES@\nLocal Open Scope N_scope."""
+IMPORTS = """From Coq Require Import Permutation Sorted.\nFrom CC Require Import Base.Prelude Base.Alloc Base.Ledger Generated.Status Generated.Constants Generated.Guards.\nFrom CC Require Import Rbuf.RbufModel SPool.SPoolModel DPool.DPoolModel Array.ArrayModel Deque.DequeModel PQueue.PQueueModel Hash.HashModel Tst.TstModel Tree.TreeModel List_.ListModel SList.SListModel.\n@MODULES@\nLocal Open Scope N_scope."""
 THEOREMS = [
   ("C06_rbuf_no_fault", "rb_run_no_fault", "CC_Rbuf: no history faults"),
   ("C06_rbuf_balanced", "rb_new_destroy_balanced", "CC_Rbuf: destroy releases exactly the two blocks of the constructor"),
@@ -28,4 +28,9 @@ THEOREMS = [
   ("C06_dpool_destroy", "dp_destroy_spec", "CC_DynamicPool: destroy releases the header and every page exactly once"),
   ("C06_dpool_reset", "dp_reset_spec", "CC_DynamicPool: reset releases every page but the oldest, exactly once"),
   ("C06_spool_run", "sp_run_inv", "CC_StaticPool: every history keeps blocks inside the caller's region"),
+  ("C06_list_destroy", "List_:destroy_spec", "CC_List: destroy releases the header and every node exactly once"),
+  ("C06_list_destroy_cb", "List_:destroy_cb_spec", "CC_List: destroy_cb / remove_all_cb call the callback once per element, in order"),
+  ("C06_list_run", "list_run_refines", "CC_List: every two-list history returns Ok (no NULL / dangling node access in the explicit node heap)"),
+  ("C06_slist_destroy", "sdestroy_spec", "CC_SList"),
+  ("C06_slist_destroy_cb", "sdestroy_cb_spec", ""),
 ]
